@@ -1,9 +1,13 @@
 #!/bin/bash
 # usage: seedtest.sh <seed-dir-name> <property>...   — applies a seeded mutation to /repo, runs the checks, reverts.
+# /verif/evidence is saved before and restored after (the mutant's evidence is kept under .cache/seedruns/<seed>/),
+# so /verif/evidence always describes the unchanged tree.
 S=/verif/seeded/$1; shift
 cd /repo && git status --short | grep -q . && { echo "repo dirty"; exit 2; }
 git apply $S/patch.diff || { echo "patch failed"; exit 2; }
-trap 'cd /repo && git checkout -- . && /verif/rs2lean/target/debug/rs2lean /repo /verif/lean/snapshot.json /verif/lean/MRB/Gen' EXIT
+BK=$(mktemp -d /tmp/seedtest.XXXXXX)
+cp -a /verif/evidence $BK/evidence
+trap 'cd /repo && git checkout -- . && /verif/rs2lean/target/debug/rs2lean /repo /verif/lean/snapshot.json /verif/lean/MRB/Gen >/dev/null; mkdir -p /verif/.cache/seedruns/'"$(basename $S)"' && cp -a /verif/evidence/. /verif/.cache/seedruns/'"$(basename $S)"'/ ; rm -rf /verif/evidence && mv $BK/evidence /verif/evidence; rm -rf $BK' EXIT
 cd /verif
 for p in "$@"; do
   out=$(./check $p 2>&1); rc=$?
